@@ -33,7 +33,7 @@ def streams(tier, rng, P, only=None, cases=None):
             body = body_with_params(rng, npar)
             args = [rng.choice(FRAGS[:15]) for _ in range(npar)]
             # (also string variables named like the words that read a system value — TIMEPTR, TIMEPOS, KEY_SHIFT are not reserved)
-            name = rng.choice(["#A", "#Mac", "STRV", "STRV", "TIMEPTR", "TIMEPOS", "KEY_SHIFT"])
+            name = rng.choice(["#A", "#Mac", "STRV", "STRV", "TIMEPTR", "TIMEPOS", "KEY_SHIFT", "Flute", "Snare1", "GrandPiano"])      # (… and like voice / drum constants)
             if name.startswith("#"): define = "%s={%s}" % (name, body); call0 = name
             else: define = "STR %s={%s};" % (name, body); call0 = name
             # (an argument position may be left empty: it still holds its place, the parameter is the empty text)
